@@ -118,14 +118,19 @@ def pullSpec (f : Facts) (pre sent : Bytes) (e : FErr) : Rep :=
   else if e = .checksum ∨ e = .badOffset then delete f ⟨none, some (pre ++ sent)⟩
   else ⟨none, some (pre ++ sent)⟩
 
-theorem pullOnce_eq (f : Facts) (content : Bytes) (resume : Bool) {r : Rep} (o : Outcome)
-    (hr : r.final = none) :
+/-- replica files when the write goroutine of that `pullOnce` has finished (before cleanup) -/
+def midSpec (pre sent : Bytes) (e : FErr) : Rep :=
+  if e = .ok then ⟨some (pre ++ sent), none⟩ else ⟨none, some (pre ++ sent)⟩
+
+theorem pullOnce_eq (f : Facts) (hpo : f.promoteAfterVerdict = true) (content : Bytes) (resume : Bool)
+    {r : Rep} (o : Outcome) (hr : r.final = none) :
     ∃ pre : Bytes,
       (pre = [] ∨ (r.part = some pre ∧ pre.length < content.length ∧ pre ≠ [])) ∧
       (resume = false → pre = []) ∧
       pullOnce H f content resume r o =
         ⟨pullSpec f pre (fetch H content pre false o).sent (fetch H content pre false o).err,
-         (fetch H content pre false o).err, pre.length⟩ := by
+         (fetch H content pre false o).err, pre.length,
+         midSpec pre (fetch H content pre false o).sent (fetch H content pre false o).err⟩ := by
   refine ⟨if resume then resumePrefix f content.length r else [], ?_, ?_, ?_⟩
   · cases resume
     · simp
@@ -144,8 +149,9 @@ theorem pullOnce_eq (f : Facts) (content : Bytes) (resume : Bool) {r : Rep} (o :
     rcases hc with hnil | ⟨hp, hne⟩
     · subst hnil
       simp only [List.length_nil, ne_eq, not_true_eq_false, decide_false, Bool.false_and]
-      unfold afterWrite pullSpec
-      simp only [List.length_nil, if_true, List.nil_append, hr]
+      unfold afterWrite pullSpec midSpec
+      simp only [List.length_nil, if_true, List.nil_append, hr, hpo, Bool.true_eq_false, false_and,
+        if_false]
       by_cases hok : (fetch H content [] false o).err = .ok
       · simp [hok]
       · simp only [hok, if_false]
@@ -153,7 +159,7 @@ theorem pullOnce_eq (f : Facts) (content : Bytes) (resume : Bool) {r : Rep} (o :
         intro h0; exact hne (List.eq_nil_of_length_eq_zero h0)
       have hb : (decide (pre.length ≠ 0) && r.part.isNone) = false := by simp [hp]
       simp only [hb]
-      unfold afterWrite pullSpec
+      unfold afterWrite pullSpec midSpec
       simp only [hlen, if_false, hp, hr]
       by_cases hok : (fetch H content pre false o).err = .ok
       · simp [hok]
@@ -355,7 +361,8 @@ theorem fetch_ok_from_zero (content : Bytes) :
   simp [fetch, bodyOf]
 
 /-- first attempt of a fresh `processEntry` call whose first candidate peer is healthy -/
-theorem attemptStep_fresh_ok {f : Facts} {content : Bytes} (maxA : Nat) (r : Rep) (c : Counters)
+theorem attemptStep_fresh_ok {f : Facts} (hpo : f.promoteAfterVerdict = true) {content : Bytes}
+    (maxA : Nat) (r : Rep) (c : Counters)
     (rest : List Outcome) (hg : GoodFinal H content r) (hnp : ¬ Phantom f content r) :
     let s' := attemptStep H f content maxA (PState.start r c) (.ok :: rest)
     (s'.st = .skipped ∧ s'.rep = r ∧ Complete H content r) ∨
@@ -371,7 +378,7 @@ theorem attemptStep_fresh_ok {f : Facts} {content : Bytes} (maxA : Nat) (r : Rep
     | some b => exact ⟨b, hf, hg b hf⟩
   · right
     have hnone := final_none_of_not_present H hg (by simpa using h2)
-    obtain ⟨pre, _, hpre, heq⟩ := pullOnce_eq H f content false .ok hnone
+    obtain ⟨pre, _, hpre, heq⟩ := pullOnce_eq H f hpo content false .ok hnone
     have hpre := hpre rfl
     subst hpre
     rw [fetch_ok_from_zero] at heq
